@@ -186,6 +186,8 @@ static void run(Ctx &c) {
   if (pa.comments + pb.comments) c.label("deco:comments");
   if (pa.blanklines + pb.blanklines) c.label("deco:blank-lines");
   if (a != b) c.label("pair:renderings-differ");
+  if (pa.tight_comment_values + pb.tight_comment_values) c.label("value:bare-comment-character-first");
+  if (pa.ends_in_comment + pb.ends_in_comment) c.label("text:ends-inside-comment");
   if (depth >= 2 && (quoted || long_value || inner)) c.nontrivial();
 }
 
